@@ -22,8 +22,15 @@
 // semantics of SA_NODEFER / sa_mask / SA_ONSTACK of the INSTALLED disposition (tbox's own while chained).  `initd e g m` = the
 // initializer_list overload with the same signal twice.  `lost l` destroys loop l WITH its subscriptions (observation; terminal:
 // only deliveries are accepted afterwards, the orphaned events are leaked, never touched).
+// Round 6: `enp e` / script action `p<j>` = enable() with the kernel answering pipe2 (if the library calls it) with EMFILE / ENFILE
+// (`M sys=Px`); the flags / mask of tbox's OWN handler are printed on an `M own=` line (the P line shows `T` only: a maintainer may add
+// SA_RESTART there), the application's dispositions stay on the P line whole; `blk g`: a helper thread really blocks in read() on an
+// empty pipe, g is delivered to THAT thread (pthread_kill): `M blk=` eintr / restarted / undisturbed (SA_RESTART of the installed disposition).
 #include "vh.h"
 #include <dlfcn.h>
+#include <pthread.h>
+#include <sys/syscall.h>
+#include <atomic>
 #include <fcntl.h>
 #include <errno.h>
 #include <limits.h>
@@ -56,6 +63,7 @@ static const int kMaxFd = 4096;
 static volatile int g_wfd_loop[kMaxFd], g_rfd_loop[kMaxFd];   // fd -> loop + 1 of the signal pipe it belongs to (0 = none)
 static volatile int g_wfd_block[kMaxFd], g_rfd_block[kMaxFd];      // the end was created WITHOUT O_NONBLOCK
 static volatile sig_atomic_t g_would_block = 0; // the handler's write would have blocked for ever (full blocking pipe, nobody reads)
+static volatile int g_pfail = 0;              // answer the library's pipe2 with this errno (0 = real call)
 static volatile int g_small = 0;              // shrink signal pipes to one page
 static volatile int g_wfail[3] = {0, 0, 0};   // answer the handler's write to loop l's pipe with this errno (0 = real write)
 static volatile sig_atomic_t g_nwr = 0;
@@ -110,6 +118,7 @@ extern "C" ssize_t read(int fd, void *buf, size_t n) {
 }
 extern "C" int pipe2(int fds[2], int flags) {
     if (!r_pipe2) resolve();
+    if (t_loop >= 0 && g_pfail) { g_sys.push_back("Px"); errno = g_pfail; return -1; }
     int r = r_pipe2(fds, flags);
     if (r == 0 && t_loop >= 0) {
         if (fds[0] < kMaxFd && fds[1] < kMaxFd) { g_rfd_loop[fds[0]] = t_loop + 1; g_wfd_loop[fds[1]] = t_loop + 1; g_wfd_block[fds[1]] = !(flags & O_NONBLOCK); g_rfd_block[fds[0]] = !(flags & O_NONBLOCK); }
@@ -225,7 +234,7 @@ static std::vector<std::vector<Act>> scripts;
 static std::vector<CbRec> cbs;
 static bool thr_bad = false;
 
-static std::string disp_of(int g) {
+static std::string disp_of(int g, bool own = false) {
     struct sigaction cur; memset(&cur, 0, sizeof(cur));
     sigaction(kSig[g], nullptr, &cur);
     bool si = (cur.sa_flags & SA_SIGINFO) != 0;
@@ -243,7 +252,17 @@ static std::string disp_of(int g) {
     std::string fs = std::to_string(enc);
     if (f) { char b[32]; snprintf(b, sizeof b, "+%lx", f); fs += b; }
     // the kernel set has 64 bits = the first word; glibc copies sizeof(sigset_t) from its on-stack kernel struct, the rest is garbage
+    // tbox's own handler: its flags and mask are the library's business (M own=), not the property's
+    if (k == "T" && !own) return k;
     return k + ":" + (si ? "1" : "0") + ":" + fs + ":" + std::to_string((unsigned long)cur.sa_mask.__val[0]);
+}
+static std::string show_own() {
+    std::string s;
+    for (int g = 0; g < kNShow; ++g) {
+        std::string d = disp_of(g, true);
+        if (d[0] == 'T') { if (!s.empty()) s += ","; s += std::to_string(g) + d.substr(1); }
+    }
+    return s.empty() ? "-" : s;
 }
 
 static std::string show() {
@@ -266,7 +285,7 @@ static void reset_all() {
         struct sigaction sa; memset(&sa, 0, sizeof(sa)); sa.sa_handler = SIG_DFL; sigemptyset(&sa.sa_mask);
         sigaction(kSig[g], &sa, nullptr);   // fails for SIGKILL/SIGSTOP, which never change anyway
     }
-    g_ncalls = 0; g_small = 0; g_nwr = 0; g_would_block = 0; g_rq.clear(); g_rq_pos = 0; g_cs_bad = false;
+    g_ncalls = 0; g_small = 0; g_pfail = 0; g_nwr = 0; g_would_block = 0; g_rq.clear(); g_rq_pos = 0; g_cs_bad = false;
     for (int l = 0; l < kNLoop; ++l) g_wfail[l] = 0;
     engine = "epoll";
     make_loops();
@@ -328,7 +347,7 @@ static bool parse_script(const std::string &w, std::vector<Act> &out, size_t sel
                 }
             }
         } else {
-            if (a.kind != 'e' && a.kind != 'd' && a.kind != 'x') return false;
+            if (a.kind != 'e' && a.kind != 'd' && a.kind != 'x' && a.kind != 'p') return false;
             if (!vh::to_u64(item.substr(1), j) || j >= 64) return false;
             if (a.kind == 'x' && j == self) return false;   // deleting oneself inside one's own callback is outside the property
         }
@@ -348,6 +367,7 @@ static void apply(const Act &a, int li) {
     struct Scope { int saved; Scope(int l) : saved(t_loop) { t_loop = l; } ~Scope() { t_loop = saved; } } scope(obj_loop[a.j]);
     switch (a.kind) {
         case 'e': t->enable(); break;
+        case 'p': { int sv = g_pfail; g_pfail = EMFILE; t->enable(); g_pfail = sv; break; }
         case 'd': t->disable(); break;
         case 'x': delete t; objs[a.j] = nullptr; break;
         case 'i': t->initialize(a.sigs, a.oneshot ? Event::Mode::kOneshot : Event::Mode::kPersist); break;
@@ -363,6 +383,66 @@ static std::string show_ord() {
     std::string s;
     for (auto &p : v) { if (!s.empty()) s += ","; s += "e" + std::to_string(p.second); }
     return s.empty() ? "-" : s;
+}
+
+// ---- a thread blocked in a slow system call when the signal arrives
+static std::atomic<int> b_stage(0);      // 1 = about to read, 2 = read returned
+static std::atomic<int> b_tid(0), b_res(0), b_err(0);
+static char task_state(int tid) {
+    char path[64], buf[512]; snprintf(path, sizeof path, "/proc/self/task/%d/stat", tid);
+    int fd = open(path, O_RDONLY); if (fd < 0) return '?';
+    ssize_t n = r_read(fd, buf, sizeof buf - 1); r_close(fd);
+    if (n <= 0) return '?';
+    buf[n] = 0;
+    char *p = strrchr(buf, ')');
+    return (p && p[1] == ' ') ? p[2] : '?';
+}
+static bool wait_sleeping(int tid) {       // until the kernel reports the thread asleep (it only ever sleeps in its read())
+    for (long i = 0; i < 20000000; ++i) {
+        if (b_stage.load() == 2) return false;
+        if (task_state(tid) == 'S') return true;
+        sched_yield();
+    }
+    return false;
+}
+static std::string blocked_call(int signo, bool ignored) {
+    int pfd[2]; if (r_pipe2(pfd, O_CLOEXEC) != 0) return "nopipe";
+    b_stage = 0; b_tid = 0; b_res = 0; b_err = 0;
+    static char stk[1 << 16];
+    int rfd = pfd[0];
+    std::thread th([rfd] {
+        // SA_ONSTACK of a user disposition needs an alternate stack on THIS thread (ASan gives every thread one and unmaps it at exit: keep that)
+        stack_t old; memset(&old, 0, sizeof old); sigaltstack(nullptr, &old);
+        bool mine = (old.ss_flags & SS_DISABLE) != 0;
+        if (mine) { stack_t ss; memset(&ss, 0, sizeof ss); ss.ss_sp = stk; ss.ss_size = sizeof stk; sigaltstack(&ss, nullptr); }
+        b_tid = (int)syscall(SYS_gettid);
+        char c; b_stage = 1;
+        ssize_t r = r_read(rfd, &c, 1);
+        int e = errno;
+        if (mine) sigaltstack(&old, nullptr);
+        b_res = (int)r; b_err = e; b_stage = 2;
+    });
+    while (b_stage.load() < 1) sched_yield();
+    int tid = b_tid.load();
+    std::string out = "lost";
+    if (wait_sleeping(tid)) {
+        int c0 = g_ncalls, w0 = g_nwr;
+        pthread_kill(th.native_handle(), signo);
+        if (!ignored) {
+            // the handler has run on that thread (sentinel call or tbox's pipe write) ...
+            for (long i = 0; i < 20000000 && g_ncalls == c0 && g_nwr == w0 && b_stage.load() != 2; ++i) sched_yield();
+            // ... and then the call either came back with EINTR or the thread sleeps in it again
+            bool again = wait_sleeping(tid);
+            if (!again && b_stage.load() == 2) out = (b_res.load() == -1 && b_err.load() == EINTR) ? "eintr" : "odd";
+            else if (again) out = "restarted";
+        } else out = "undisturbed";
+    }
+    char c = 'x';
+    if (b_stage.load() != 2) { if (r_write(pfd[1], &c, 1) != 1) out = "odd"; }
+    th.join();
+    if ((out == "restarted" || out == "undisturbed") && b_res.load() != 1) out = "odd";
+    r_close(pfd[0]); r_close(pfd[1]);
+    return out;
 }
 
 // one case, in a process of its own: the signal bookkeeping under test is process-wide, so a defect hit by one
@@ -385,7 +465,7 @@ static void run_case(const std::vector<std::string> &lines) {
         if (w[0] == "case") { reset_all(); std::cout << line << "\n"; continue; }
         size_t l, e, g, f; uint64_t m64 = 0;
         g_sys.clear(); g_cs_bad = false;
-        if (lost_flag && w[0] != "raise" && w[0] != "raisew" && w[0] != "burst") { std::cout << "bad-op\n"; continue; }
+        if (lost_flag && w[0] != "raise" && w[0] != "raisew" && w[0] != "burst" && w[0] != "blk") { std::cout << "bad-op\n"; continue; }
         if (w[0] == "eng" && w.size() == 2 && (w[1] == "e" || w[1] == "s")) {
             if (objs.empty()) {   // engine can only be chosen before the first event of the case
                 for (int i = 0; i < kNLoop; ++i) { delete loops[i]; loops[i] = nullptr; }
@@ -420,6 +500,7 @@ static void run_case(const std::vector<std::string> &lines) {
             lost_flag = true;
             std::cout << "P lost " << show() << "\n";
             std::cout << "M sys=" << show_sys() << "\n";
+            std::cout << "M own=" << show_own() << "\n";
         } else if ((w[0] == "init1" || w[0] == "initl" || w[0] == "initd") && w.size() == 4 && idx(w[1], objs.size(), e)) {
             // the int overload (one signal) and the initializer_list overload: both ADD to the event's set
             std::set<int> ss;
@@ -437,6 +518,7 @@ static void run_case(const std::vector<std::string> &lines) {
             if (ss.size() > 3) { std::cout << "bad-op\n"; continue; }
             std::cout << "P ret=" << (r ? 1 : 0) << " " << show() << "\n";
             std::cout << "M sys=" << show_sys() << "\n";
+            std::cout << "M own=" << show_own() << "\n";
         } else if (w[0] == "init" && w.size() == 4 && idx(w[1], objs.size(), e)) {
             std::set<int> ss;
             if (!parse_sigs(w[2], ss) || (w[3] != "o" && w[3] != "p")) { std::cout << "bad-op\n"; continue; }
@@ -445,12 +527,14 @@ static void run_case(const std::vector<std::string> &lines) {
             if (o) workers[obj_loop[e]].run([&] { r = o->initialize(ss, w[3] == "o" ? Event::Mode::kOneshot : Event::Mode::kPersist); });
             std::cout << "P ret=" << (r ? 1 : 0) << " " << show() << "\n";
             std::cout << "M sys=" << show_sys() << "\n";
-        } else if ((w[0] == "en" || w[0] == "dis" || w[0] == "del") && w.size() == 2 && idx(w[1], objs.size(), e)) {
+            std::cout << "M own=" << show_own() << "\n";
+        } else if ((w[0] == "en" || w[0] == "enp" || w[0] == "dis" || w[0] == "del") && w.size() == 2 && idx(w[1], objs.size(), e)) {
             SignalEvent *o = objs[e];
             bool r = false;
             if (o) {
                 workers[obj_loop[e]].run([&] {
                     if (w[0] == "en") r = o->enable();
+                    else if (w[0] == "enp") { g_pfail = (e % 2) ? ENFILE : EMFILE; r = o->enable(); g_pfail = 0; }
                     else if (w[0] == "dis") r = o->disable();
                     else { delete o; r = true; }
                 });
@@ -458,6 +542,7 @@ static void run_case(const std::vector<std::string> &lines) {
             }
             std::cout << "P ret=" << (r ? 1 : 0) << " " << show() << "\n";
             std::cout << "M sys=" << show_sys() << "\n";
+            std::cout << "M own=" << show_own() << "\n";
         } else if (w[0] == "sa" && w.size() == 5 && idx(w[1], kNSig, g) && w[2].size() >= 1 && idx(w[3], 64, f) && vh::to_u64(w[4], m64)) {
             struct sigaction sa; memset(&sa, 0, sizeof(sa)); sigemptyset(&sa.sa_mask);
             size_t h = 0; bool ok = true;
@@ -525,6 +610,33 @@ static void run_case(const std::vector<std::string> &lines) {
             std::cout << "M wr=" << wr << "\n";
             if (after > before) std::cout << "M env=" << (unsigned long)g_env_seen << ":" << g_env_st << "\n";
             else std::cout << "M env=-\n";
+        } else if (w[0] == "blk" && w.size() == 2 && idx(w[1], kNShow, g) && g != 0 && g != 3) {
+            // a thread really blocked in read() on an empty (blocking) pipe of its own gets the signal (pthread_kill): EINTR or restart
+            // is decided by SA_RESTART of the INSTALLED disposition.  No timing: the main thread waits for the kernel's own report that
+            // the thread sleeps (/proc/self/task/<tid>/stat) and for the handler's invocation count.
+            char k = disp_of((int)g)[0];
+            int before = g_ncalls;
+            std::string outcome = k == 'd' ? "killed" : (k == 'i' ? "ignored" : "handled");
+            std::string blk = "killed";
+            g_nwr = 0;
+            if (k != 'd') blk = blocked_call(kSig[g], k == 'i');
+            std::string one;
+            for (int l2 = 0; l2 < kNLoop; ++l2)
+                for (int j = 0; j < g_nwr; ++j) if (g_wr_loop[j] == l2) {
+                    if (!one.empty()) one += ",";
+                    one += "l" + std::to_string(l2) + ":" + (g_wr_res[j] <= -1000 ? "short" : errname(g_wr_res[j]));
+                }
+            if (one.empty()) one = "-";
+            int after = g_ncalls;
+            std::string calls;
+            for (int i = before; i < after; ++i) { if (!calls.empty()) calls += ","; calls += std::to_string(g_call_h[i]) + ":" + std::to_string(sig_index(g_call_g[i])); }
+            if (calls.empty()) calls = "-";
+            if (after > 200) g_ncalls = 0;
+            std::cout << "P raise " << outcome << " calls=" << calls << " " << show() << (g_would_block ? " HANDLER-WOULD-BLOCK" : "") << "\n";
+            std::cout << "M wr=" << one << "\n";
+            if (after > before) std::cout << "M env=" << (unsigned long)g_env_seen << ":" << g_env_st << "\n";
+            else std::cout << "M env=-\n";
+            std::cout << "M blk=" << blk << "\n";
         } else if (((w[0] == "pass" && w.size() == 2) || (w[0] == "passc" && w.size() == 3)) && idx(w[1], kNLoop, l)) {
             g_rq.clear(); g_rq_pos = 0;
             if (w[0] == "passc") {
@@ -548,6 +660,7 @@ static void run_case(const std::vector<std::string> &lines) {
             for (auto &t : g_sys) if (t.find('!') != std::string::npos) disc = true;
             std::cout << "P pass ord=" << ord << " cbs=" << show_cbs() << " thr=" << (thr_bad ? "BAD" : "ok") << " " << show() << (g_would_block ? " LOOP-WOULD-BLOCK" : "") << "\n";
             std::cout << "M cs=" << (disc ? "BAD" : "ok") << "\n";
+            std::cout << "M own=" << show_own() << "\n";
         } else {
             std::cout << "bad-op\n";
         }
